@@ -725,14 +725,16 @@ const MULTI: &[&str] = &["Ã©", "â‚¬", "ð”¸", "Ð¶", "ÃŸ", "ðŸ¦€", "\u{2003}", "Î
 
 fn gen_input(rng: &mut Rng, def: &DefInfo, rf: &Ref, max_len: usize) -> Vec<u8> {
     let mut out: Vec<u8> = Vec::new();
-    let target = match rng.below(10) {
-        0 => rng.range(0, 2),
-        1..=5 => rng.range(3, 24.min(max_len)),
-        6..=8 => rng.range(12.min(max_len), 48.min(max_len)),
-        _ => rng.range(24.min(max_len), max_len),
+    let target = match rng.below(40) {
+        0..=3 => rng.range(0, 2),
+        4..=22 => rng.range(3, 24.min(max_len)),
+        23..=34 => rng.range(12.min(max_len), 48.min(max_len)),
+        35..=38 => rng.range(24.min(max_len), max_len),
+        // occasionally well beyond the usual length: offsets above 255, many 8-byte batches
+        _ => rng.range(max_len, max_len * 12),
     };
     while out.len() < target {
-        if max_len > 512 && rng.chance(1, 6) {
+        if (max_len > 512 || target > max_len) && rng.chance(1, 6) {
             // a long run of one fragment: long self-loops, many 8-byte batches
             let f: &[u8] = *rng.pick(def.frags);
             let f = if f.is_empty() { b"a" } else { f };
@@ -1007,7 +1009,7 @@ fn main() {
     let runs = args.num("runs", 10_000);
     let workers = args.num("workers", 16) as usize;
     let max_len = args.num("max-len", 96) as usize;
-    REF_LIMIT.store(args.num("ref-limit", u64::MAX) as usize, std::sync::atomic::Ordering::Relaxed);
+    REF_LIMIT.store(args.num("ref-limit", 600) as usize, std::sync::atomic::Ordering::Relaxed);
     let replay_dir = args.get("replay-dir").unwrap_or("/verif/replays").to_string();
     let tag = args.get("tag").unwrap_or("build").to_string();
     let world = build_world(args.get("def"));
